@@ -270,8 +270,8 @@ def resolveOutput (output : Option String) (t : DummiesType) : Except XErr Strin
 def applyDirect (x : XContrast) (t : DummiesType) (dummies : List (List Rat)) (levels : List Label)
     (reduced : Bool) (output : Option String) : Except XErr (Encoded × String) := do
   let o ← resolveOutput output t
-  -- the empty short-circuit builds its result per output type and knows only 'pandas', 'numpy', 'sparse'
-  if o == "narwhals" && (levels.isEmpty || (levels.length == 1 && reduced)) then Except.error XErr.shortCircuitOutput
+  -- (until repair 31b1146 the empty short-circuit knew only 'pandas', 'numpy', 'sparse' and raised for 'narwhals';
+  -- it now builds the pandas encoding for 'narwhals' as well)
   let e ← xApply x dummies levels reduced (o == "sparse")
   pure (e, o)
 
